@@ -118,6 +118,11 @@ func (rs *ResourceSubscription) GetModel() (*Model, uint) {
 func (rs *ResourceSubscription) Unsubscribe(sub Subscriber) {
 	rs.e.Enqueue(func() {
 		if sub != nil {
+			// A delete event, or a failed get request, may already have
+			// removed the subscriber and released its count.
+			if _, ok := rs.subs[sub]; !ok {
+				return
+			}
 			delete(rs.subs, sub)
 			delete(rs.waiting, sub)
 		}
